@@ -1,0 +1,20 @@
+//go:build verif
+
+package chain
+
+import (
+	"context"
+
+	"0chain.net/chaincore/block"
+)
+
+// VerifFinalizeBlockProcess exposes the real finalization path (state save, dead-node recording, LFB update) to the
+// verification harness.
+func (c *Chain) VerifFinalizeBlockProcess(ctx context.Context, fb *block.Block, bsh BlockStateHandler) error {
+	return c.finalizeBlockProcess(ctx, fb, bsh)
+}
+
+// VerifPruneClientState exposes the real state pruning step.
+func (c *Chain) VerifPruneClientState(ctx context.Context) {
+	c.pruneClientState(ctx)
+}
